@@ -69,9 +69,13 @@ var flowPlans = map[string]flowPlan{
 	"authorize": {op: "Authorize", class: "login", prep: func(d *opdrv.Driver) M {
 		return M{"client": "cw", "uri": "ucw", "rtype": "code", "rmode": "", "scopes": []string{"openid"}, "chall": "none", "state": "st1", "nonce": "n1"}
 	}},
+	// a request whose redirect URI is NOT registered: whatever fails, the answer is never a redirect to it
+	"authorizeUnregistered": {op: "Authorize", class: "refusal", prep: func(d *opdrv.Driver) M {
+		return M{"client": "cw", "uri": "evil", "rtype": "code", "rmode": "", "scopes": []string{"openid"}, "chall": "none", "state": "st1", "nonce": "n1"}
+	}},
 	"authorizeHint": {op: "Authorize", class: "login", prep: func(d *opdrv.Driver) M {
 		_, _, idt := tokensFor(d, "cw")
-		return M{"client": "cw", "uri": "ucw", "rtype": "code", "rmode": "", "scopes": []string{"openid"}, "chall": "none", "state": "st1", "nonce": "n1", "hint": idt}
+		return M{"client": "cw", "uri": "ucw", "rtype": "code", "rmode": "", "scopes": []string{"openid"}, "chall": "none", "state": "st1", "nonce": "n1", "hint": M{"kind": "valid", "id": idt}}
 	}},
 	"callbackCode": {op: "Callback", class: "code", prep: func(d *opdrv.Driver) M {
 		return M{"req": loginFlow(d, "cw", "code", "", []string{"openid", "email"})}
@@ -241,6 +245,16 @@ func FaultCase(c *Case) M {
 			want = map[string]string{"callbackCode": "ucw", "callbackFormPost": "ucw", "callbackImplicit": "ucx", "callbackIDToken": "ucx"}[S(c.C, "flow")]
 		}
 		o["sameTarget"] = S(out, "target") == want
+	}
+	if plan.class == "refusal" {
+		// the fault-free answer is an error page / error document; an error redirect is judged by sameTarget = FALSE below
+		if cl := S(out, "class"); !B(out, "faulted") && cl != "page" && cl != "json" {
+			o["class"], o["got"] = "prepfail", cl
+		}
+		if S(out, "class") == "redirErr" {
+			o["sameTarget"] = false
+		}
+		return o
 	}
 	if !B(out, "faulted") && S(out, "class") != plan.class {
 		// the fault-free run of a prepared flow must succeed; otherwise the sweep proves nothing
